@@ -609,7 +609,7 @@ pub struct DedupeConfig {
     /// `--rf-over` value in the earlier `fclones group` run.
     #[arg(
         short = 'n', long, value_name = "COUNT",
-        value_parser = clap::value_parser!(u64).range(1..)
+        value_parser = clap::value_parser!(u64).range(1..).map(|n| n as usize)
     )]
     pub rf_over: Option<usize>,
 
